@@ -867,6 +867,149 @@ theorem impl_lookup_erase (d : Entries) (k k' : Val) (hd : Inv keyHit KeyOK d) (
     lookup keyHit (DictOps.erase keyHit d k) k' = if keyEq k' k then none else lookup keyHit d k' := by
   rw [lookup_erase impl_isEquiv d k k' hd hk hk', keyHit_spec k' k hk' hk]; rfl
 
+/-! ## 5b. the remaining operations refine the finite map as well -/
+section Refine2
+variable {h1 h2 : Val → Val → Bool} {P : Val → Prop}
+
+theorem insert_keys (hit : Val → Val → Bool) (d : Entries) (k v : Val) (hd : ∀ e ∈ d, P e.1) (hk : P k) :
+    ∀ e ∈ DictOps.insert hit d k v, P e.1 := by
+  intro e he
+  rcases mem_insert_key d k v e he with h | ⟨g, hg, hge⟩
+  · rw [h]; exact hk
+  · rw [← hge]; exact hd g hg
+
+theorem uniqueLoop_congr (H : ∀ k e, P k → P e → h1 k e = h2 k e) (xs : List Val) (seen : Entries)
+    (hs : ∀ e ∈ seen, P e.1) (hx : ∀ x ∈ xs, P x) : uniqueLoop h1 seen xs = uniqueLoop h2 seen xs := by
+  induction xs generalizing seen with
+  | nil => rfl
+  | cons x xs ih =>
+    have hxP : P x := hx x (List.mem_cons_self ..)
+    simp only [uniqueLoop]
+    rw [contains_congr2 H seen x hs hxP, insert_congr H seen x _ hs hxP,
+      ih seen hs (fun y hy => hx y (List.mem_cons_of_mem _ hy)),
+      ih _ (insert_keys h2 seen x .null hs hxP) (fun y hy => hx y (List.mem_cons_of_mem _ hy))]
+
+theorem freqLoop_congr (H : ∀ k e, P k → P e → h1 k e = h2 k e) (xs : List Val) (acc : Entries)
+    (hs : ∀ e ∈ acc, P e.1) (hx : ∀ x ∈ xs, P x) : freqLoop h1 acc xs = freqLoop h2 acc xs := by
+  induction xs generalizing acc with
+  | nil => rfl
+  | cons x xs ih =>
+    have hxP : P x := hx x (List.mem_cons_self ..)
+    simp only [freqLoop]
+    rw [lookup_congr H acc x hs hxP, insert_congr H acc x _ hs hxP,
+      ih _ (insert_keys h2 acc x _ hs hxP) (fun y hy => hx y (List.mem_cons_of_mem _ hy))]
+
+theorem groupLoop_congr (H : ∀ k e, P k → P e → h1 k e = h2 k e) (xs : List Val) (acc : Entries)
+    (hs : ∀ e ∈ acc, P e.1) (hx : ∀ x ∈ xs, P x) : groupLoop h1 acc xs = groupLoop h2 acc xs := by
+  induction xs generalizing acc with
+  | nil => rfl
+  | cons x xs ih =>
+    have hxP : P x := hx x (List.mem_cons_self ..)
+    simp only [groupLoop]
+    rw [lookup_congr H acc x hs hxP, insert_congr H acc x _ hs hxP,
+      ih _ (insert_keys h2 acc x _ hs hxP) (fun y hy => hx y (List.mem_cons_of_mem _ hy))]
+
+theorem memoLoop_congr (H : ∀ k e, P k → P e → h1 k e = h2 k e) (xs : List Val) (memo : Entries)
+    (hs : ∀ e ∈ memo, P e.1) (hx : ∀ x ∈ xs, P x) : memoLoop h1 memo xs = memoLoop h2 memo xs := by
+  induction xs generalizing memo with
+  | nil => rfl
+  | cons x xs ih =>
+    have hxP : P x := hx x (List.mem_cons_self ..)
+    simp only [memoLoop]
+    rw [lookup_congr H memo x hs hxP, insert_congr H memo x _ hs hxP,
+      ih memo hs (fun y hy => hx y (List.mem_cons_of_mem _ hy)),
+      ih _ (insert_keys h2 memo x _ hs hxP) (fun y hy => hx y (List.mem_cons_of_mem _ hy))]
+
+theorem unionAddLoop_congr (H : ∀ k e, P k → P e → h1 k e = h2 k e) (y x : Entries)
+    (hx : ∀ e ∈ x, P e.1) (hy : ∀ e ∈ y, P e.1) : unionAddLoop h1 x y = unionAddLoop h2 x y := by
+  induction y generalizing x with
+  | nil => rfl
+  | cons f y ih =>
+    obtain ⟨k, v⟩ := f
+    have hk : P k := hy (k, v) (List.mem_cons_self ..)
+    have hy' : ∀ e ∈ y, P e.1 := fun e he => hy e (List.mem_cons_of_mem _ he)
+    simp only [unionAddLoop]
+    rw [lookup_congr H x k hx hk]
+    cases lookup h2 x k with
+    | none =>
+      simp only
+      rw [insert_congr H x k v hx hk]
+      exact ih _ (insert_keys h2 x k v hx hk) hy'
+    | some old =>
+      simp only
+      cases addVals old v with
+      | ok s =>
+        simp only
+        rw [insert_congr H x k s hx hk]
+        exact ih _ (insert_keys h2 x k s hx hk) hy'
+      | throw => rfl
+      | panic => rfl
+
+end Refine2
+
+theorem all_valid_of_keyOK (xs : List Val) (h : ∀ x ∈ xs, KeyOK x) : xs.all validKey = true := by
+  rw [List.all_eq_true]; intro x hx; exact keyOK_valid x (h x hx)
+
+/-- **dict_refines_finmap** (constructors and aggregations): literal construction, `set`, `dict`,
+`unique`, `frequencies`, `count_distinct`, `classify`, `group_all`, `memoize`, `||+` and `d[k] f= v`
+return what the finite map on `≈`-classes returns, for keys of any list/vector nesting -/
+theorem dict_refines_finmap_builders (xs : List Val) (ps : Entries) (dflt : Option Val)
+    (hx : ∀ x ∈ xs, KeyOK x) (hp : ∀ e ∈ ps, KeyOK e.1) :
+    DictOps.literal keyHit dflt ps = DictOps.literal DictSpec.hit dflt ps ∧
+    DictOps.mkSet keyHit xs = DictOps.mkSet DictSpec.hit xs ∧
+    DictOps.unique keyHit xs = DictOps.unique DictSpec.hit xs ∧
+    DictOps.frequencies keyHit xs = DictOps.frequencies DictSpec.hit xs ∧
+    DictOps.countDistinct keyHit xs = DictOps.countDistinct DictSpec.hit xs ∧
+    DictOps.classify keyHit xs = DictOps.classify DictSpec.hit xs ∧
+    DictOps.groupAll keyHit xs = DictOps.groupAll DictSpec.hit xs ∧
+    DictOps.memoize keyHit xs = DictOps.memoize DictSpec.hit xs := by
+  have H : ∀ k e, KeyOK k → KeyOK e → keyHit k e = DictSpec.hit k e := keyHit_spec
+  have hnil : ∀ e ∈ ([] : Entries), KeyOK e.1 := by intro e he; cases he
+  have hxs : ∀ e ∈ xs.map (fun x => (x, Val.null)), KeyOK e.1 := by
+    intro e he
+    obtain ⟨x, hx', rfl⟩ := List.mem_map.mp he
+    exact hx x hx'
+  refine ⟨?_, ?_, ?_, ?_, ?_, ?_, ?_, ?_⟩
+  · simp only [DictOps.literal, insertAll_congr H [] ps hnil hp]
+  · simp only [DictOps.mkSet, insertAll_congr H [] _ hnil hxs]
+  · simp only [DictOps.unique, uniqueLoop_congr H xs [] hnil hx]
+  · simp only [DictOps.frequencies, freqLoop_congr H xs [] hnil hx]
+  · simp only [DictOps.countDistinct, uniqueLoop_congr H xs [] hnil hx]
+  · simp only [DictOps.classify, groupLoop_congr H xs [] hnil hx]
+  · simp only [DictOps.groupAll, groupLoop_congr H xs [] hnil hx]
+  · simp only [DictOps.memoize, memoLoop_congr H xs [] hnil hx]
+
+theorem dict_refines_finmap_update (a b d k v : Val) (f : String) (ha : DictOK a) (hb : DictOK b) (hd : DictOK d)
+    (hk : KeyOK k) :
+    DictOps.unionAdd keyHit a b = DictOps.unionAdd DictSpec.hit a b ∧
+    DictOps.opAssign keyHit d k f v = DictOps.opAssign DictSpec.hit d k f v ∧
+    DictOps.insertPair keyHit d (.list [k, v]) = DictOps.insertPair DictSpec.hit d (.list [k, v]) := by
+  have H : ∀ k e, KeyOK k → KeyOK e → keyHit k e = DictSpec.hit k e := keyHit_spec
+  refine ⟨?_, ?_, ?_⟩
+  · cases a <;> cases b <;> simp only [DictOps.unionAdd]
+    rename_i x dx y dy
+    rw [unionAddLoop_congr H y x ha hb]
+  · have hidx := (dict_refines_finmap d k v hd hk).1
+    cases d with
+    | dict kvs dflt =>
+      have hkv : ∀ e ∈ kvs, KeyOK e.1 := hd
+      simp only [DictOps.opAssign, hidx, insert_congr H kvs k .null hkv hk]
+      cases DictOps.index DictSpec.hit (.dict kvs dflt) k with
+      | ok lhs =>
+        simp only
+        cases combine f lhs v with
+        | ok c =>
+          simp only
+          rw [insert_congr H _ k c (insert_keys DictSpec.hit kvs k .null hkv hk) hk]
+        | throw => rfl
+        | panic => rfl
+      | throw => rfl
+      | panic => rfl
+    | _ => rfl
+  · simp only [DictOps.insertPair]
+    exact (dict_refines_finmap d k v hd hk).2.2.2.1
+
+
 /-! ## 6. the dict arm of the hash does not depend on the iteration order of the `HashMap` -/
 
 theorem foldl_add_mod (g : Nat → Nat) (M : Nat) (hM : 0 < M) (l : List Nat) (a : Nat) (ha : a < M) :
